@@ -7,7 +7,7 @@ import parserutil
 from core import hx, exc_name
 
 ID = 'C04'
-MODULES = ['Httoop.Props.C04']
+MODULES = ['Httoop.Props.C04', 'Httoop.Props.C04Whole']
 THEOREMS = [
 	'Httoop.integerStr_natToDec',
 	'Httoop.Compose.cl_reads_back',
@@ -19,6 +19,13 @@ THEOREMS = [
 	'Httoop.chunkSize_hexLower',
 	'Httoop.StartLine.status_roundtrip',
 	'Httoop.StartLine.version_roundtrip',
+	'Httoop.StartLine.response_line_roundtrip',
+	'Httoop.Parser.lines_noDbl',
+	'Httoop.Parser.response_head',
+	'Httoop.Parser.response_roundtrip',
+	'Httoop.Parser.response_roundtrip_chunked',
+	'Httoop.Parser.c04_response_witness',
+	'Httoop.Parser.c04_response_chunked_witness',
 ]
 TRUSTED = [
 	'the theorems join the composer framing model (C05) and the parser model (C01-C03, C07): what the body iterator writes for either framing, the parser model reads back octet for octet, with the Content-Length text read by the library\'s own integer(); '
@@ -60,7 +67,7 @@ def ctlchars(s):
 
 def gen_case(rng):
 	kind = rng.choice(('request', 'response'))
-	method = ''.join(rng.choice(METHOD_CHARS) for _ in range(rng.choice((1, 3, 7, 20)))) if rng.random() < 0.3 else rng.choice(('GET', 'POST', 'PUT', 'DELETE', 'OPTIONS', 'PATCH', 'HEAD', 'TRACE'))
+	method = ''.join(rng.choice(METHOD_CHARS) for _ in range(rng.choice((1, 3, 7, 20)))) if rng.random() < 0.3 else rng.choice(('GET', 'POST', 'PUT', 'DELETE', 'OPTIONS', 'PATCH', 'HEAD', 'TRACE', 'SEARCH', 'get', 'Head', 'search', 'Get', 'pOST', 'trace'))
 	segs = tuple(word(rng, SEG_ALPHABETS) for _ in range(rng.randrange(0, 5)))
 	segs = tuple(s for s in segs if s not in (u'.', u'..'))
 	query = tuple((word(rng, SEG_ALPHABETS), word(rng, SEG_ALPHABETS, 0, 6)) for _ in range(rng.randrange(0, 4)))
@@ -71,7 +78,7 @@ def gen_case(rng):
 	version = rng.choice(((1, 1), (1, 1), (1, 0)))
 	fields = []
 	for name in rng.sample(HEADER_NAMES, rng.randrange(1, 5)):
-		v = word(rng, [u'abc XYZ 019', u'text/html; q=0.5, */*', u'äöü éè', u'"quoted, value"', u'a=b; c="d e"', u'\xa0x\xff'], 1, 12).strip()
+		v = word(rng, [u'abc XYZ 019', u'text/html; q=0.5, */*', u'äöü éè', u'"quoted, value"', u'a=b; c="d e"', u'\xa0x\xff', u'na\xc3\xafve \xc2\xa0\xc3\xa9', u'\xc3\xa4\xe2\x82\xacx'], 1, 12).strip()
 		fields.append((name, v or u'v'))
 	source = rng.choice(SOURCES)
 	n = rng.choice((0, 1, 5, 300, 4096, 4097, 9000))
@@ -271,6 +278,9 @@ def oracle(case):
 			w = got.headers.getbytes(k)
 			if w != v.encode('latin-1'):
 				bad.append('field %s: %r != %r' % (k, w, v.encode('latin-1')))
+			elif got.headers[k] != v:
+				# the text the application reads, against the text the caller supplied (not against the sender's own reading)
+				bad.append('field %s reads %r, %r was set' % (k, got.headers[k], v))
 		if bytes(got.body) != want_body:
 			bad.append('body: %d octets, %d sent' % (len(bytes(got.body)), len(want_body)))
 		if bad:
@@ -306,5 +316,7 @@ def finding_still_fails(k):
 
 LEVEL_TEXT = ('Theorems joining the composer framing model (C05) with the parser model (C01-C03): the Content-Length the composer writes is read back by the library\'s own integer() as the number it stands for (every n of up to 4300 digits), the parser then takes exactly the content and leaves the rest of the stream; '
 	'with chunked framing the reader returns exactly the content for any number and size of pieces; with a content coding (any lawful codec) decoding what was read gives the content. Start line and version round trips are the theorems of C18, target and header fields those of C10/C08 (piecewise). '
-	'The whole message (all components at once, every body source, both sides, one call and fragments) is decided by the oracle on the real code; the parser MODEL is run on every composed wire and compared with the real parser.')
-LEVEL_NOTE = 'Trusted: Lean kernel; correspondence harness; the end-to-end equality of all components is oracle-level (no single theorem composes C18+C10+C08+C05+C02). Defects found by this check were repaired (F50 colon in path, F51 empty reason phrase); F1d, F26d are the C04 views of recorded findings F1, F26.'
+	'For RESPONSES the whole message is one theorem (response_roundtrip, response_roundtrip_chunked): status line (response_line_roundtrip), header section (C08 round trip; the block has no empty line inside: lines_noDbl) and body under a truthful Content-Length or in chunks as the composer frames them, '
+	'fed to the client-side state machine in one call, come back as exactly one message with the same version, status, reason, fields and body, nothing retained (through the pipeline theorem of C02). '
+	'Requests (the target goes through URI parse, normalisation and the Host hooks), content codings, every body source and fragmented delivery are decided by the oracle on the real code; the parser MODEL is run on every composed wire and compared with the real parser.')
+LEVEL_NOTE = 'Trusted: Lean kernel; correspondence harness; the end-to-end equality of all components is a theorem for responses and oracle-level for requests (no single theorem composes C18+C10+C08+C05+C02 on the request side). Defects found by this check were repaired (F50 colon in path, F51 empty reason phrase); F1d, F26d are the C04 views of recorded findings F1, F26.'
